@@ -275,6 +275,7 @@ func runC12(c *Ctx) {
 
 	// R4: confirmed spend releases every input's lease
 	checkLeaseRelease(c, "C12-R4")
+	checkRescanSetIncludesLeasedOutputs(c, "C12-R4")
 
 	// R5: writers of the lease bucket
 	n := 0
@@ -444,4 +445,45 @@ func checkLeaseLayout(c *Ctx) {
 	usesUnix := func(fn *ssa.Function, name string) bool { return len(callsNamed(fn, name)) > 0 }
 	c.Check("C12-R5", "lease-expiry-unit-agrees", des.Pos(), usesUnix(ser, "Unix") && usesUnix(des, "Unix"),
 		"lease expiry is not written and read as unix seconds on both sides")
+}
+
+// checkRescanSetIncludesLeasedOutputs: a confirmed spend of a leased output removes the lease — but the wallet learns
+// of a spend only if the backend was asked to watch that outpoint. The set of outpoints the wallet hands to every rescan
+// (activeData) therefore comes from a store query that does NOT filter leased outputs out: its call of the credit
+// fetcher switches the lease test off. With the spendable set instead, a lease that is alive across a restart takes its
+// output off the watch list; it is spent unnoticed, and at expiry the spent output returns to the balance.
+func checkRescanSetIncludesLeasedOutputs(c *Ctx, rule string) {
+	p := c.P
+	ad := p.Func("wallet", "Wallet", "activeData")
+	fc := p.Func("wtxmgr", "Store", "fetchCredits")
+	if ad == nil || fc == nil {
+		c.Unresolved(rule, "wallet.activeData / wtxmgr.Store.fetchCredits")
+		return
+	}
+	n := 0
+	for _, f := range p.regionOf(ad) {
+		for _, ci := range callsOf(f) {
+			call, ok := ci.(*ssa.Call)
+			if !ok {
+				continue
+			}
+			g := call.Call.StaticCallee()
+			if g == nil || fnPkgPath(g) != fnPkgPath(fc) {
+				continue
+			}
+			for _, inner := range callsOf(g) {
+				ic, ok := inner.(*ssa.Call)
+				if !ok || !p.isCallTo(ic, fc) {
+					continue
+				}
+				n++
+				a := p.argNamed(ic, "includeLocked", 2)
+				k, isK := stripConv(a).(*ssa.Const)
+				okInc := a != nil && isK && k.Value != nil && k.Value.String() == "true"
+				c.Check(rule, "rescan-set-includes-leased-outputs", call.Pos(), okInc,
+					"the outpoints handed to the rescan come from "+fnName(g)+", which leaves leased outputs out: a lease alive across a restart takes its output off the backend's watch list, a confirmed spend of it is never reported, the lease is not removed and the spent output returns to the spendable set at expiry")
+			}
+		}
+	}
+	c.Floor(rule, "credit queries feeding the rescan set", n, 1)
 }
